@@ -435,9 +435,14 @@ class Interp:
         if isinstance(st, ast.ClassDef):
             return env
         if isinstance(st, ast.Return):
+            if isinstance(st.value, ast.Constant) and st.value.value is None and isinstance(self.ret, TV):
+                return None  # `return None` next to tuple returns: None aliases nothing, the positions of the tuples are kept
             if st.value is not None:
                 v = self.val_tv(st.value, env)
-                self.ret = join(self.ret, v) if self.ret is not None else v
+                if isinstance(v, TV) and self.ret is not None and not isinstance(self.ret, TV) and self.ret == FRESH:
+                    self.ret = v  # (an earlier `return None`)
+                else:
+                    self.ret = join(self.ret, v) if self.ret is not None else v
             else:
                 self.ret = join(self.ret, FRESH) if self.ret is not None else FRESH
             return None
@@ -1026,6 +1031,10 @@ class Interp:
                 return FRESH
             # a method of a library object (polars / sqlalchemy / str): fresh result
             return FRESH
+        if last == "map" and e.args and dotted(e.args[0]) in ("copy.copy", "copy"):
+            # map(copy.copy, xs): a fresh iterator over fresh shells of the elements (like [copy.copy(x) for x in xs])
+            els = join(*[shift(v) for v in allv[1:]]) if len(allv) > 1 else NOTHING
+            return (frozenset({F}), frozenset({F}), frozenset(els[1] | els[2]))
         if last in ALIASING_FUNCS:
             if last in ("next", "min", "max", "reduce"):
                 return join(*[shift(v) for v in allv]) if allv else FRESH
